@@ -149,6 +149,45 @@ pub fn local_time(
     Ok(helpers::local_time(unix_time, utc_offset, microsecond))
 }
 
+/// Removes the UTC offset from the wall clock fields, carrying into the date.
+fn shift_to_utc(info: &mut DateTimeInfo) {
+    let mut seconds = info.hour * SECS_PER_HOUR as i32
+        + info.minute * SECS_PER_MIN as i32
+        + info.second
+        - info.offset;
+
+    if seconds < 0 {
+        seconds += SECS_PER_DAY as i32;
+        info.day -= 1;
+
+        if info.day < 1 {
+            info.month -= 1;
+            if info.month < 1 {
+                info.month = 12;
+                info.year -= 1;
+            }
+            info.day = DAYS_PER_MONTHS[usize::from(helpers::is_leap(info.year))][info.month as usize];
+        }
+    } else if seconds >= SECS_PER_DAY as i32 {
+        seconds -= SECS_PER_DAY as i32;
+        info.day += 1;
+
+        if info.day > DAYS_PER_MONTHS[usize::from(helpers::is_leap(info.year))][info.month as usize] {
+            info.day = 1;
+            info.month += 1;
+            if info.month > 12 {
+                info.month = 1;
+                info.year += 1;
+            }
+        }
+    }
+
+    info.hour = seconds / SECS_PER_HOUR as i32;
+    info.minute = seconds % SECS_PER_HOUR as i32 / SECS_PER_MIN as i32;
+    info.second = seconds % SECS_PER_MIN as i32;
+    info.offset = 0;
+}
+
 #[pyfunction]
 pub fn precise_diff<'py>(
     dt1: &Bound<'py, PyAny>,
@@ -196,35 +235,7 @@ pub fn precise_diff<'py>(
         dtinfo1.microsecond = dt1dt.get_microsecond() as i32;
 
         if !in_same_tz && dtinfo1.offset != 0 || total_days == 0 {
-            dtinfo1.hour -= dtinfo1.offset / SECS_PER_HOUR as i32;
-            dtinfo1.offset %= SECS_PER_HOUR as i32;
-            dtinfo1.minute -= dtinfo1.offset / SECS_PER_MIN as i32;
-            dtinfo1.offset %= SECS_PER_MIN as i32;
-            dtinfo1.second -= dtinfo1.offset;
-
-            if dtinfo1.second < 0 {
-                dtinfo1.second += 60;
-                dtinfo1.minute -= 1;
-            } else if dtinfo1.second > 60 {
-                dtinfo1.second -= 60;
-                dtinfo1.minute += 1;
-            }
-
-            if dtinfo1.minute < 0 {
-                dtinfo1.minute += 60;
-                dtinfo1.hour -= 1;
-            } else if dtinfo1.minute > 60 {
-                dtinfo1.minute -= 60;
-                dtinfo1.hour += 1;
-            }
-
-            if dtinfo1.hour < 0 {
-                dtinfo1.hour += 24;
-                dtinfo1.day -= 1;
-            } else if dtinfo1.hour > 24 {
-                dtinfo1.hour -= 24;
-                dtinfo1.day += 1;
-            }
+            shift_to_utc(&mut dtinfo1);
         }
 
         dtinfo1.total_seconds = dtinfo1.hour * SECS_PER_HOUR as i32
@@ -241,35 +252,7 @@ pub fn precise_diff<'py>(
         dtinfo2.microsecond = dt2dt.get_microsecond() as i32;
 
         if !in_same_tz && dtinfo2.offset != 0 || total_days == 0 {
-            dtinfo2.hour -= dtinfo2.offset / SECS_PER_HOUR as i32;
-            dtinfo2.offset %= SECS_PER_HOUR as i32;
-            dtinfo2.minute -= dtinfo2.offset / SECS_PER_MIN as i32;
-            dtinfo2.offset %= SECS_PER_MIN as i32;
-            dtinfo2.second -= dtinfo2.offset;
-
-            if dtinfo2.second < 0 {
-                dtinfo2.second += 60;
-                dtinfo2.minute -= 1;
-            } else if dtinfo2.second > 60 {
-                dtinfo2.second -= 60;
-                dtinfo2.minute += 1;
-            }
-
-            if dtinfo2.minute < 0 {
-                dtinfo2.minute += 60;
-                dtinfo2.hour -= 1;
-            } else if dtinfo2.minute > 60 {
-                dtinfo2.minute -= 60;
-                dtinfo2.hour += 1;
-            }
-
-            if dtinfo2.hour < 0 {
-                dtinfo2.hour += 24;
-                dtinfo2.day -= 1;
-            } else if dtinfo2.hour > 24 {
-                dtinfo2.hour -= 24;
-                dtinfo2.day += 1;
-            }
+            shift_to_utc(&mut dtinfo2);
         }
 
         dtinfo2.total_seconds = dtinfo2.hour * SECS_PER_HOUR as i32
